@@ -200,10 +200,36 @@ def run_case(case):
         ghosts(cp, 'copy')
         rows_check(g, phi, bad, maxerr, cov, 'constructor')
         plotprofile_check(g, phi, bad, cov)
+        # (1b) a copy gets boundary data of its own: the original still reports values that satisfy ITS (unchanged) conditions
+        ke_ = int(rng.integers(0, g.nd))
+        if ke_ not in spec['periodic']:
+            getattr(cp.BCs, SIDES[ke_][int(rng.integers(0, 2))]).fixedValue(float(rng.normal()) + 3.0)
+            cp.apply_BCs()
+            ghosts(cp, 'copy-with-own-BCs')
+            ghosts(phi, 'original-after-copy-edit')
         # (2) value edit then apply_BCs
         phi2.value = np.asarray(vals, dtype=float) * 0.5 + 1.0
         phi2.apply_BCs()
         ghosts(phi2, 'apply_BCs')
+        # (2b) edits the dirty flags cannot see (documented TrackedArray limitation: fill / copyto), or a replaced BC object,
+        # each followed by the explicit apply_BCs() the documentation prescribes
+        kq_ = int(rng.integers(0, g.nd))
+        if kq_ not in spec['periodic']:
+            fq_ = getattr(phi2.BCs, SIDES[kq_][int(rng.integers(0, 2))])
+            howq = str(rng.choice(['fill', 'copyto', 'replace-object']))
+            if howq == 'fill':
+                fq_.c.fill(float(rng.normal()) + 1.5)
+            elif howq == 'copyto':
+                np.copyto(fq_.c, np.asarray(fq_.c) * 0.5 - 0.9)
+            else:
+                from copy import deepcopy
+                nb_ = deepcopy(phi2.BCs)
+                getattr(nb_, SIDES[kq_][0]).c = np.asarray(getattr(nb_, SIDES[kq_][0]).c) * 2.0 + 0.7
+                nb_.modified = False
+                phi2.BCs = nb_
+            phi2.apply_BCs()
+            ghosts(phi2, 'apply_BCs-after-untracked-edit')
+            rows_check(g, phi2, bad, maxerr, cov, 'apply_BCs after an untracked edit (%s)' % howq)
         # (3) solvePDE
         dt = float(10 ** rng.uniform(-2, 1))
         Dface, _ = gen.face_arrays(rng, g, 'random', positive=True)
@@ -351,7 +377,7 @@ def floors(agg, tier):
     for cls in CLASSES:
         if agg['cov'].get('cases:' + cls, 0) < 6:
             out.append('cases:%s < 6' % cls)
-    for k, need in (('op:constructor', 100), ('op:apply_BCs', 100), ('op:solvePDE', 80), ('op:solveExplicitPDE', 80),
+    for k, need in (('op:constructor', 100), ('op:apply_BCs', 100), ('op:original-after-copy-edit', 100), ('op:apply_BCs-after-untracked-edit', 100), ('op:solvePDE', 80), ('op:solveExplicitPDE', 80),
                     ('robin_faces', 1000), ('wrap_faces', 200), ('rows-robin', 500), ('scale_invariance', 80), ('plotprofile_faces', 500), ('interior_consistency', 150),
                     ('valdtype:int64', 10), ('valdtype:bool', 10), ('geo:int', 10), ('geo:jitter', 8), ('geo:nano', 8), ('no_precalc_round1', 80), ('no_precalc_round2', 40), ('no_precalc_round3', 40), ('side_edit:left', 5), ('side_edit:right', 5), ('side_edit:bottom', 5), ('side_edit:top', 5), ('side_edit:back', 3), ('side_edit:front', 3)):
         if agg['cov'].get(k, 0) < need:
